@@ -39,7 +39,21 @@ import (
 	"verifharness/vh"
 )
 
+// the web port is picked by bind-note-release: another process can take it in between (sandbox, not the server):
+// the case is started again in a fresh child
 func asmExec(in []string) []string {
+	var f []string
+	for try := 0; try < 6; try++ {
+		f = asmExecOnce(in)
+		if !vh.PortClash(f) {
+			break
+		}
+		time.Sleep(time.Duration(50*(try+1)) * time.Millisecond)
+	}
+	return f
+}
+
+func asmExecOnce(in []string) []string {
 	cmd := osexec.Command(os.Args[0], append([]string{"asm14child"}, in...)...)
 	var out, errb bytes.Buffer
 	cmd.Stdout, cmd.Stderr = &out, &errb
